@@ -1021,10 +1021,13 @@ def bodyRunActs (go : Call → St → St × Ret) (id : Nat) (acts : List ClientA
     let (s, st') := go (.runActs id rest) s
     (s, if rest.isEmpty then st else st')
   | .sendSlot spec slot :: rest =>
+    -- the id ares_send_nolock is about to give the query (not `lastQid` afterwards: the call may go on to send a
+    -- probe to a failed server, which is a later query with its own id)
+    let qid := (genQid 70000 s).1
     let (s, st) := go (.sendNolock none false false spec (.client id) []) s
     -- ares_query_nolock stores the query id through its out parameter on success
     let s := if st == .ok then s.modClient id fun c =>
-        if slot == 0 then { c with qidA := s.lastQid } else { c with qidAAAA := s.lastQid } else s
+        if slot == 0 then { c with qidA := qid } else { c with qidAAAA := qid } else s
     let (s, st') := go (.runActs id rest) s
     (s, if rest.isEmpty then st else st')
   | .noRetry qid :: rest =>
